@@ -9,6 +9,7 @@ import ast
 import builtins
 import hashlib
 import importlib
+import inspect
 import operator
 import os
 import types
@@ -1994,6 +1995,18 @@ class Engine:
                 raise Unsupported(
                     f'native call {getattr(fn, "__qualname__", fn)!r} with '
                     'symbolic argument')
+        if str(getattr(fn, '__module__', '')).startswith(
+                ('contracts', 'pyvc', 'harness')):
+            # a model that cannot take the call the real code makes is a gap
+            # in the model, never a TypeError of the program under proof
+            try:
+                inspect.signature(fn).bind(*args, **kwargs)
+            except TypeError as ex:
+                raise Unsupported(
+                    f'model {getattr(fn, "__qualname__", fn)!r} does not '
+                    f'accept this call: {ex}')
+            except ValueError:
+                pass
         return self.guard(lambda: fn(*args, **kwargs))
 
     def instantiate(self, cls, args, kwargs):
